@@ -58,6 +58,7 @@ func init() {
 			bk := DefaultBankKnobs()
 			bk.PCallback, bk.PFault, bk.PPanic, bk.PDur = 65, 25, 35, 80
 			bk.WInvoke, bk.WDecorate = 8, 3
+			bk.PDeep, bk.PChain = 70, 50
 			bk.MaxOps = 20
 			if thorough {
 				bk.MaxOps, bk.MaxScopes = 30, 6
